@@ -2,14 +2,30 @@
 // translation time; prints the finite tables that are derived by execution rather than from the
 // shape of the source text.  `Unicode::length(char)` is a pure function of one byte: its 256 values
 // are the table `utf8LengthTable` of lean/Nstd/Generated/CodecTables.lean.
+// `String::isSpace(char)`, `String::toLowerCase(char)`, `String::toUpperCase(char)` likewise (the case maps are data of
+// src/String.cpp, so the probe links String.cpp and Memory.cpp of the current sources).
 #include <stdio.h>
+#include <stdarg.h>
 #include <nstd/Unicode.hpp>
+#include <nstd/Debug.hpp>
+
+int Debug::printf(const char* format, ...) { (void)format; return 0; }
 
 int main()
 {
   printf("length");
   for(int b = 0; b < 256; ++b)
     printf(" %lu", (unsigned long)Unicode::length((char)(unsigned char)b));
+  printf("\n");
+  printf("isspace");
+  for(int b = 0; b < 256; ++b)
+    printf(" %d", String::isSpace((char)(unsigned char)b) ? 1 : 0);
+  printf("\nlower");
+  for(int b = 0; b < 256; ++b)
+    printf(" %u", (unsigned)(unsigned char)String::toLowerCase((char)(unsigned char)b));
+  printf("\nupper");
+  for(int b = 0; b < 256; ++b)
+    printf(" %u", (unsigned)(unsigned char)String::toUpperCase((char)(unsigned char)b));
   printf("\n");
   return 0;
 }
